@@ -45,6 +45,10 @@ def sh(cmd, **kw):
 
 try:
     r = sh(f'git -C /repo worktree add -q --detach {W} HEAD && git -C {W} apply {patch}')
+    if r.returncode != 0:
+        # the change was written against an earlier HEAD of /repo: try a 3-way merge of the patch
+        r = sh(f'git -C {W} apply --3way {patch} && git -C {W} reset -q')
+        out['applied_3way'] = r.returncode == 0
     out['applies'] = r.returncode == 0
     if not out['applies']:
         out['apply_error'] = r.stdout[-300:]
